@@ -76,6 +76,11 @@ CHECKS = {
    text='Soundness: every circuit returned by CircuitFinderSat.find_circuit for all 81 (2,1) models and sampled (2,2),(3,1),(3,2) models x budgets x bases (enum / string / custom lists) x need_normalized x fix_gate / forbid_wire combinations (with and without the forked solver path) is judged by TLC: exactly r binary gates over two distinct earlier nodes, types in the basis, outputs at gates, agreement with the model off don\'t-cares, every imposed constraint. Completeness: Synth.tla is the search space itself as a state machine; TLC explores the program space of every configuration for which NoSolutionError was reported and refutes the claim iff a complete reachable program matches the model (one exploration decides all claims of a configuration).',
    note='Trusted: TLC, Synth.tla / JudgeSynth, the solver shim. Budgets <= 3 (4 in thorough for 2 inputs); calls that use the circuit database shortcut are outside the property.',
    tech='TLA+ state machine of straight-line programs model-checked by TLC decides NoSolution claims; returned circuits validated by a TLC trace specification'),
+
+ 'C07': dict(cat='exploration', ref='5 (C07)',
+   text='Hundreds of generator calls (bit-count sums, efficient/naive weighted sums over all short weight vectors, two-number and shifted adders over all small length/shift combinations, add_sum_pow2_m1 up to 70 inputs; bases as enum and in several string spellings; both endiannesses; fresh inputs or arbitrary repeated gates of random host circuits) are recorded; TLC evaluates each resulting circuit on all 2^n rows (n <= 10) or on sampled rows and judges the weighted-sum identity with pairwise distinct levels, a + b*2^shift, returned labels are gates, pre-existing gates keep their function, host inputs/outputs untouched, basis, and the weakest documented gate-count bound. ArithLemmas.tla checks the bit-sequence reference arithmetic against integers.',
+   note='Trusted: TLC, Arith.tla / JudgeArith (executable reference semantics - the "transcribed function" use of the technique), recorder (endianness contract). Exhaustive inside small widths, sampled beyond.',
+   tech='TLA+ reference arithmetic evaluated by TLC on circuits recorded from the generators'),
 }
 PENDING = 'check not built yet in this round (work in progress; see DESIGN.md section 5)'
 m = {
